@@ -179,3 +179,64 @@ package s2
 //@   ensures [inverts] 0 <= result.ChainID && result.ChainID < p.NumChains() && 0 <= result.Offset && result.Offset < p.Chain(result.ChainID).Length && p.Chain(result.ChainID).Start+result.Offset == e
 //@   loop 1 (nextLoop int): invariant 1 <= nextLoop && nextLoop <= p.numLoops && p.cumulativeVertices[nextLoop-1] <= e
 //@   loop 1: decreases p.numLoops - nextLoop
+
+// ---------------------------------------------------------------- ShapeIndexIterator over a sorted, disjoint cell list
+
+//@ spec func vcIdx(ix *ShapeIndex) bool = ix != nil && vcSortedDisjoint(CellUnion(ix.cells))
+// the iterator's cached id mirrors its position
+//@ spec func vcIterAt(s *ShapeIndexIterator) bool = s != nil && s.index != nil && 0 <= s.position && s.position <= len(s.index.cells) &&
+//@    (s.position < len(s.index.cells) ==> s.id == s.index.cells[s.position]) && (s.position == len(s.index.cells) ==> s.id == SentinelCellID)
+
+//@ func cellIDFromPoint(p Point) CellID
+//@   assumed "float projection onto a cube face; that the result is a valid leaf is the integer part of C01 (Hilbert tables)"
+//@   pure
+//@   ensures vcValid(result) && result.IsLeaf()
+
+//@ func (s *ShapeIndexIterator) refresh()
+//@   requires s != nil && s.index != nil && 0 <= s.position
+//@   modifies s.id, s.cell
+//@   ensures [in] s.position < len(s.index.cells) ==> s.id == s.index.cells[s.position]
+//@   ensures [end] s.position >= len(s.index.cells) ==> s.id == SentinelCellID
+
+//@ func (s *ShapeIndexIterator) Next()
+//@   requires vcIterAt(s) && s.position < len(s.index.cells)
+//@   modifies s.position, s.id, s.cell
+//@   ensures vcIterAt(s) && s.position == old(s.position)+1
+
+//@ func (s *ShapeIndexIterator) Prev() bool
+//@   requires vcIterAt(s)
+//@   modifies s.position, s.id, s.cell
+//@   ensures [moved] result <==> old(s.position) > 0
+//@   ensures [pos] vcIterAt(s) && (result ==> s.position == old(s.position)-1) && (!result ==> s.position == old(s.position))
+
+//@ func (s *ShapeIndexIterator) End()
+//@   requires s != nil && s.index != nil
+//@   modifies s.position, s.id, s.cell
+//@   ensures vcIterAt(s) && s.position == len(s.index.cells)
+
+//@ func (s *ShapeIndexIterator) Done() bool
+//@   requires vcIterAt(s) && vcIdx(s.index)
+//@   ensures result <==> s.position == len(s.index.cells)
+
+//@ func (s *ShapeIndexIterator) seek(target CellID)
+//@   requires s != nil && vcIdx(s.index)
+//@   modifies s.position, s.id, s.cell
+//@   ensures [at] vcIterAt(s)
+//@   ensures [below] forall k int :: 0 <= k && k < s.position ==> s.index.cells[k] < target
+//@   ensures [first] s.position < len(s.index.cells) ==> s.index.cells[s.position] >= target
+
+//@ func (s *ShapeIndexIterator) LocatePoint(p Point) bool
+//@   requires s != nil && vcIdx(s.index)
+//@   modifies s.position, s.id, s.cell
+//@   ensures [at] vcIterAt(s)
+//@   ensures [sound] result ==> s.position < len(s.index.cells) && s.index.cells[s.position].Contains(old(cellIDFromPoint(p)))
+//@   ensures [complete] forall k int :: 0 <= k && k < len(s.index.cells) && s.index.cells[k].Contains(old(cellIDFromPoint(p))) ==> result
+
+//@ func (s *ShapeIndexIterator) LocateCellID(target CellID) CellRelation
+//@   requires s != nil && vcIdx(s.index) && vcValid(target)
+//@   modifies s.position, s.id, s.cell
+//@   ensures [at] vcIterAt(s)
+//@   ensures [indexed] result == Indexed ==> s.position < len(s.index.cells) && s.index.cells[s.position].Contains(target)
+//@   ensures [subdivided] result == Subdivided ==> s.position < len(s.index.cells) && target.Contains(s.index.cells[s.position]) && target != s.index.cells[s.position]
+//@   ensures [disjoint] result == Disjoint ==> (forall k int :: 0 <= k && k < len(s.index.cells) ==> !s.index.cells[k].Intersects(target))
+//@   ensures [indexed-complete] (forall k int :: 0 <= k && k < len(s.index.cells) && s.index.cells[k].Contains(target) ==> result == Indexed)
